@@ -178,6 +178,44 @@ def r15_2(ctx: Ctx):
     return obs
 
 
+def _truncation_counterexample(expr_txt: str, arg: str, tf: str, probe: bool = False):
+    """Evaluate a closed arithmetic expression over n = len(<arg>) and t = <tf> (no repo code is run: only + - * / // int
+    len floor ceil round min max on numbers) on a grid and compare with int(n * t).  -> (n, t, got, want) | None | 'equal'"""
+    import math
+
+    try:
+        tree = ast.parse(expr_txt, mode="eval").body
+    except SyntaxError:
+        return None
+    allowed_calls = {"int": int, "round": round, "min": min, "max": max, "math.floor": math.floor, "math.ceil": math.ceil, "np.floor": math.floor, "np.ceil": math.ceil, "floor": math.floor, "ceil": math.ceil}
+
+    def ev(e, n, t):
+        if isinstance(e, ast.Constant) and isinstance(e.value, (int, float)):
+            return e.value
+        if isinstance(e, ast.Name) and e.id == tf:
+            return t
+        if isinstance(e, ast.Call) and norm(e.func) == "len" and len(e.args) == 1 and (canon(e.args[0]) == arg or canon(e.args[0]).startswith(f"sorted({arg}")):
+            return n
+        if isinstance(e, ast.Call) and norm(e.func) in allowed_calls and not e.keywords:
+            return allowed_calls[norm(e.func)](*[ev(a, n, t) for a in e.args])
+        if isinstance(e, ast.BinOp) and isinstance(e.op, (ast.Add, ast.Sub, ast.Mult, ast.Div, ast.FloorDiv)):
+            a, b = ev(e.left, n, t), ev(e.right, n, t)
+            return {ast.Add: a + b, ast.Sub: a - b, ast.Mult: a * b}.get(type(e.op)) if not isinstance(e.op, (ast.Div, ast.FloorDiv)) else (a / b if isinstance(e.op, ast.Div) else a // b)
+        if isinstance(e, ast.UnaryOp) and isinstance(e.op, ast.USub):
+            return -ev(e.operand, n, t)
+        raise ValueError("outside the arithmetic fragment")
+
+    try:
+        for n in (2, 3, 5, 7, 10, 15, 23, 33, 40, 60):
+            for t in (1.0, 0.9, 0.8, 0.6, 0.5, 0.3, 0.25, 0.1):
+                got, want = ev(tree, n, t), int(n * t)
+                if got != want:
+                    return (n, t, got, want)
+    except (ValueError, ZeroDivisionError, TypeError):
+        return None
+    return "equal" if probe else None
+
+
 def r15_3(ctx: Ctx):
     """R15.3 best-first once, prefix truncation, better-set = prefix before the individual (tie with the best -> the best), nearest = argmin of Euclidean norms."""
     obs = []
@@ -197,7 +235,28 @@ def r15_3(ctx: Ctx):
         ok = t in want
         why = f"self.individuals = `{t[:110]}`; expected the best-first sort truncated to the prefix int(n * truncation_factor)"
         definite = ("sorted(" in t and "reverse=True" not in t) or "key=" in t or "[-" in t or ("sorted(" not in t and ".sort(" not in t) or "round(" in t or "ceil(" in t or "+1" in t
+        if not ok and not definite:
+            # prefix length as an arithmetic expression of n and the truncation factor: compare with int(n * t) on a grid
+            m_ = re.fullmatch(r"sorted\(%s,reverse=True\)\[:(.*)\]" % re.escape(arg), t)
+            if m_:
+                cex = _truncation_counterexample(m_.group(1), arg, tf)
+                if cex is not None:
+                    definite = True
+                    why = f"self.individuals keeps `{m_.group(1)}` individuals; for n={cex[0]}, truncation={cex[1]} that is {cex[2]} instead of int(n * truncation) = {cex[3]}"
+                elif cex is None and _truncation_counterexample(m_.group(1), arg, tf, probe=True) == "equal":
+                    ok = True
     obs.append(ctx.ob("R15.3", init, st[0] if st else init.node, status=OK if ok else VIOLATION if (len(st) != 1 or definite) else INCONCLUSIVE, detail="best-first order (Individual order, once), prefix truncation int(n * truncation_factor)" if ok else why, construct="order-truncate"))
+    # the factors are used as given: `x or default` replaces a legitimate 0 / 0.0
+    for n_ in body_walk(init.node):
+        if isinstance(n_, ast.Assign) and len(n_.targets) == 1 and is_self_attr(n_.targets[0], None, sn) and n_.targets[0].attr in ("distance_factor", "truncation_factor"):
+            v_ = n_.value
+            pname = n_.targets[0].attr
+            if isinstance(v_, ast.BoolOp) and isinstance(v_.op, ast.Or) and any(isinstance(x, ast.Constant) for x in v_.values):
+                obs.append(ctx.ob("R15.3", init, n_, status=VIOLATION, detail=f"`{norm(n_)}` replaces a falsy {pname} (0 / 0.0) by a default: with factor 0 every kept individual is a seed by definition, but the clustering runs with the default factor", construct=f"param:{pname}"))
+            elif canon(v_, defs) in init.params():
+                obs.append(ctx.ob("R15.3", init, n_, detail=f"{pname} stored as given", construct=f"param:{pname}"))
+            else:
+                obs.append(ctx.ob("R15.3", init, n_, status=INCONCLUSIVE, detail=f"cannot tell whether `{norm(n_)[:60]}` stores the parameter unchanged", construct=f"param:{pname}"))
     ps = nbc.methods["_prepare_spanning_tree"]
     psn = ps.self_name()
     loops = [n for n in ps.node.body if isinstance(n, ast.For)]
@@ -234,7 +293,9 @@ def r15_3(ctx: Ctx):
                 return isinstance(e, ast.List) and len(e.elts) == 1 and canon(e.elts[0], pdefs) == root_t
 
             why_b = f"better-set `{norm(calls[0].args[1])}` = `{canon(bexp)[:100]}`"
-            if isinstance(bexp, ast.IfExp):
+            if isinstance(bexp, ast.IfExp) and any(isinstance(x, ast.Call) and norm(x.func).split(".")[-1] in ("isclose", "allclose") for x in ast.walk(bexp.test)):
+                st_b, why_b = VIOLATION, f"the tie with the best is decided with a tolerance (`{norm(bexp.test)[:60]}`): individuals that are merely close to the best attach to it instead of to their nearest strictly better individual"
+            elif isinstance(bexp, ast.IfExp):
                 tie = canon(bexp.test, pdefs)
                 tie_eq = tie in (f"{ind}=={root_t}", f"{root_t}=={ind}", f"not{ind}!={root_t}")
                 tie_ne = tie in (f"{ind}!={root_t}", f"{root_t}!={ind}", f"not{ind}=={root_t}")
